@@ -64,7 +64,7 @@ func init() {
 			return 2000
 		},
 		CounterFloors: func(tier string) map[string]int64 {
-			return map[string]int64{"docs_multi_page": 300, "pages": 5000, "draw_text_events": 10000, "skip_pairs_checked": 300, "engine_gotext": 100, "docs_degenerate-floats": 150, "docs_quote-stress": 150}
+			return map[string]int64{"docs_multi_page": 300, "pages": 5000, "draw_text_events": 10000, "skip_pairs_checked": 300, "engine_gotext": 100, "docs_degenerate-floats": 150, "docs_quote-stress": 150, "docs_collapsed-borders": 120, "docs_svg-stroke": 120}
 		},
 		Assumptions: []string{
 			"termination is decided as bounded progress: CPU budget of 120 s per bounded document (>= 40x the worst legitimate cost seen) and no " + fmt.Sprint(stallLimit) + " consecutive identical page-loop states; an unbounded 'eventually' is out of reach of runtime monitoring",
@@ -78,7 +78,7 @@ var tokRe = regexp.MustCompile(`w[0-9]+z`)
 
 // render runs one document with the page-loop progress monitor of wr.Render.
 func render(d gen.Doc, res *fw.Result) (r *wr.Rendered, stalled string, err error) {
-	for _, fam := range []string{"degenerate-floats", "quote-stress"} {
+	for _, fam := range []string{"degenerate-floats", "quote-stress", "collapsed-borders", "svg-stroke"} {
 		if strings.Contains(d.HTML, "<!--gen:"+fam+"-->") {
 			res.Count("docs_"+fam, 1)
 		}
